@@ -15,6 +15,7 @@ CLAUSE = {
     301: "after draw the reference terminal's display differs from the canvas",
     401: "draw did not transmit exactly the changed cells, once each, in row-major order (or sent bytes for an unchanged canvas)",
     801: "the terminal_state handed to a manipulator reports as known a value that is not the reference terminal's state",
+    802: "a cursor or saved-cursor position is still reported as known right after a size change",
     901: "erase: wrong region cleared, cleared cells not default blanks, cursor moved, or rendition not default afterwards",
     1101: "mode/title not as last requested, or sent in a form the declared behaviour does not support",
     1301: "bytes were sent for a rendition / position / visibility already in effect",
@@ -28,9 +29,9 @@ PROPS = {
     "C02": dict(targets=["Properties_C02.vo"], families=OUTPUT_FAMILIES, codes=[201]),
     "C03": dict(targets=["Properties_C03.vo"], families=[("screen", 1.0), ("screen_wild", 0.2), ("term", 0.3)], codes=[301]),
     "C04": dict(targets=["Properties_C04.vo"], families=[("screen", 1.0), ("screen_wild", 0.2), ("term", 0.3)], codes=[401]),
-    "C08": dict(targets=["Properties_C08.vo"], families=OUTPUT_FAMILIES, codes=[801]),
+    "C08": dict(targets=["Properties_C08.vo"], families=OUTPUT_FAMILIES, codes=[801, 802]),
     "C09": dict(targets=["Properties_C09.vo"], families=OUTPUT_FAMILIES, codes=[901]),
-    "C11": dict(targets=["Properties_C11.vo"], families=[("term", 0.5), ("term_modes", 1.0), ("term_wild", 0.2)], codes=[1101]),
+    "C11": dict(targets=["Properties_C11.vo"], families=[("term", 0.5), ("term_modes", 1.0), ("term_wild", 0.2), ("screen", 0.3)], codes=[1101]),
     "C13": dict(targets=["Properties_C13.vo"], families=OUTPUT_FAMILIES, codes=[1301]),
     "C16": dict(targets=["Properties_C16.vo"], families=[("canvas", 1.0), ("canvas_alias", 0.5)], codes=[], extra="c16"),
     "C15": dict(targets=["Properties_C15.vo"], families=[("values", 1.0), ("show", 0.3)], codes=[], extra="c15"),
